@@ -399,6 +399,10 @@ func (o *AlonzoTransactionOutput) UnmarshalCBOR(cborData []byte) error {
 }
 
 func (o *AlonzoTransactionOutput) MarshalCBOR() ([]byte, error) {
+	// Return stored CBOR if available
+	if o.Cbor() != nil {
+		return o.Cbor(), nil
+	}
 	if o.legacyOutput {
 		tmpOutput := mary.MaryTransactionOutput{
 			OutputAddress: o.OutputAddress,
